@@ -99,7 +99,8 @@ def rule_p1(ctx, F):
         ctx.gate("P1", fn, jump, [("there is a next range", "self->current_included_range_index < self->included_range_count", True)], accept_desc="jumping to the next range's start")
         look = [pt for pt, n in find(fn, "ts_lexer__get_lookahead(self)")]
         ctx.gate("P1", fn, look, [("position is inside the current range",
-                                   [("self->current_position.bytes >= current_range->end_byte", False)]), ("a current range exists", "current_range", True)],
+                                   [("self->current_position.bytes >= current_range->end_byte", False)]), ("a current range exists", "current_range", True),
+                                  ("the current range is not empty", "current_range->end_byte == current_range->start_byte", False)],
                  accept_desc="reading the next character")
     fn = ctx.need_fn(F, "ts_lexer_finish", "P1")
     if fn:
@@ -112,6 +113,10 @@ def rule_p1(ctx, F):
         ctx.floor("goto snaps forward to a range start", len(mv), 1)
         ctx.gate("P1", fn, mv, [("only when the range starts at/after the requested position", "included_range->start_byte >= self->current_position.bytes", True),
                                 ("range ends after the position", "included_range->end_byte > self->current_position.bytes", True)], accept_desc="snapping to the range start")
+        sel = [pt for pt, n in find(fn, "self->current_included_range_index = i")]
+        ctx.floor("range selection in ts_lexer_goto", len(sel), 1)
+        ctx.gate("P1", fn, sel, [("a seek never selects an empty range (the lexer would read the excluded character at its offset)", "included_range->end_byte > included_range->start_byte", True),
+                                 ("a seek selects a range that ends after the position", "included_range->end_byte > self->current_position.bytes", True)], accept_desc="selecting included range i")
 
 
 def run(ctx):
